@@ -141,7 +141,9 @@ func (MonC03) State(x *Exec) *Violation {
 				continue
 			}
 			q := Query{Kind: SeqRange, A: a, B: b}
-			got, pan := collectSafe(x.D, q)
+			var seq func(func(Pair) bool)
+			var got []Pair
+			pan := safely(func() { seq = x.D.Seq(q); got = Collect(seq) })
 			x.Stats.Evaluations++
 			if len(exp) > 0 {
 				x.Stats.Nontrivial++
@@ -152,6 +154,21 @@ func (MonC03) State(x *Exec) *Violation {
 			}
 			if !PairsEqual(got, exp) {
 				return viol(what, PairsString(u, exp), PairsString(u, got))
+			}
+			if len(exp) >= 2 {
+				// the same sequence value again, after a pass abandoned at its first element
+				var again []Pair
+				pan := safely(func() {
+					seq(func(Pair) bool { return false })
+					again = Collect(seq)
+				})
+				x.Stats.Evaluations++
+				if pan != "" {
+					return viol(what+" (second pass after an abandoned one)", PairsString(u, exp), "panic: "+pan)
+				}
+				if !PairsEqual(again, exp) {
+					return viol(what+" (second pass after an abandoned one)", PairsString(u, exp), PairsString(u, again))
+				}
 			}
 		}
 	}
@@ -309,6 +326,83 @@ func (MonC06) State(x *Exec) *Violation {
 	x.Stats.Evaluations++
 	if got := x.D.Size(); got != x.Ref.Len() {
 		return viol(fmt.Sprintf("Size() after read-only queries, content %s", x.Ref), fmt.Sprint(x.Ref.Len()), fmt.Sprint(got))
+	}
+	return nil
+}
+
+// ---------------------------------------------------------------- warmed variants
+
+func (m MonC01) Light(x *Exec, clean *Exec) *Violation { return m.State(x) }
+func (m MonC02) Light(x *Exec, clean *Exec) *Violation { return m.State(x) }
+func (m MonC04) Light(x *Exec, clean *Exec) *Violation { return m.State(x) }
+
+func (MonC03) Light(x *Exec, clean *Exec) *Violation {
+	u := x.U
+	if !u.HasRange {
+		return nil
+	}
+	n := min(len(u.Bounds), 4)
+	sub := *u
+	sub.Bounds = u.Bounds[:n]
+	y := *x
+	y.U = &sub
+	return MonC03{}.State(&y)
+}
+
+func (MonC05) Light(x *Exec, clean *Exec) *Violation {
+	u := x.U
+	sorted := x.Ref.Sorted()
+	for _, isMax := range []bool{false, true} {
+		var p Pair
+		var ok bool
+		f, name := x.D.Min, "Minimum()"
+		if isMax {
+			f, name = x.D.Max, "Maximum()"
+		}
+		pan := safely(func() { p, ok = f() })
+		x.Stats.Evaluations++
+		eok := len(sorted) > 0
+		var ep Pair
+		if eok {
+			ep = sorted[0]
+			if isMax {
+				ep = sorted[len(sorted)-1]
+			}
+		}
+		what := fmt.Sprintf("%s with content %s", name, x.Ref)
+		if pan != "" {
+			return viol(what, optPair(u, ep, eok), "panic: "+pan)
+		}
+		if ok != eok || (ok && (p.K != ep.K || p.V != ep.V)) {
+			return viol(what, optPair(u, ep, eok), optPair(u, p, ok))
+		}
+	}
+	for _, q := range []Query{{Kind: SeqTopK, N: 1}, {Kind: SeqBottomK, N: 1}, {Kind: SeqTopK, N: math.MaxUint}} {
+		src := sorted
+		if q.Kind == SeqTopK {
+			src = Reverse(sorted)
+		}
+		exp := src
+		if uint(len(src)) > q.N {
+			exp = src[:q.N]
+		}
+		got, pan := collectSafe(x.D, q)
+		x.Stats.Evaluations++
+		what := fmt.Sprintf("%s with content %s", q, x.Ref)
+		if pan != "" {
+			return viol(what, PairsString(u, exp), "panic: "+pan)
+		}
+		if !PairsEqual(got, exp) && !(len(got) == 0 && len(exp) == 0) {
+			return viol(what, PairsString(u, exp), PairsString(u, got))
+		}
+	}
+	return nil
+}
+
+func (MonC06) Light(x *Exec, clean *Exec) *Violation {
+	x.Stats.Evaluations++
+	if got := x.D.Size(); got != x.Ref.Len() {
+		return viol(fmt.Sprintf("Size() with content %s", x.Ref), fmt.Sprint(x.Ref.Len()), fmt.Sprint(got))
 	}
 	return nil
 }
